@@ -84,6 +84,32 @@ def check(prop, tier, seed, replay):
         states, transitions = r["distinct"], r["states"]
         log(f"[mc] MC_Wake_fixed: {r['distinct']} distinct states, contract holds in every interleaving; "
             f"MC_Wake_pinned: violated as expected ({rp['violated']})")
+        # 1b. the same protocol, with the internals of futures' AtomicWaker, on a view-based release/acquire memory model
+        #     (spec/WriterWakeRA.tla): holds with the code's orderings and with every penguin-mux ordering weakened to Relaxed;
+        #     self-tests: the pinned algorithm fails, and a "skip the wake unless a waiting flag is seen" variant fails under
+        #     release/acquire although it passes under sequential consistency (so the memory model has teeth)
+        ra_runs = []
+        for cfg, must_hold in (("MC_WakeRA_fixed", True), ("MC_WakeRA_relaxed", True), ("MC_WakeRA_fixed_sc", True),
+                               ("MC_WakeRA_pinned", False), ("MC_WakeRA_flagged", False), ("MC_WakeRA_flagged_sc", True)) + \
+                (() if tier == "quick" else (("MC_WakeRA_fixed3", True), ("MC_WakeRA_relaxed3", True))):
+            rr = vlib.model_check("WriterWakeRA", cfg, workers=4, timeout=600, coverage=False)
+            if must_hold and not rr["ok"]:
+                log(rr["out"][-2500:])
+                raise ToolError(f"WriterWakeRA ({cfg}) violates {rr['violated']}: triage the specification")
+            if not must_hold and (rr["ok"] or rr["violated"] != "ContractHolds"):
+                raise ToolError(f"self-test failed: {cfg} must violate ContractHolds and does not ({rr.get('violated')})")
+            if must_hold and rr["distinct"] < 2000:
+                raise ToolError(f"vacuous run: {cfg} explored too few states")
+            ra_runs.append(dict(config=cfg, distinct_states=rr["distinct"], states_generated=rr["states"],
+                                verdict="holds" if rr["ok"] else "violated as it must be"))
+        ra_fixed = next(x for x in ra_runs if x["config"] == "MC_WakeRA_fixed")
+        ra_sc = next(x for x in ra_runs if x["config"] == "MC_WakeRA_fixed_sc")
+        if ra_fixed["distinct_states"] <= ra_sc["distinct_states"]:
+            raise ToolError("vacuous memory model: release/acquire explored no more states than sequential consistency")
+        log("[mc] WriterWakeRA (release/acquire views, AtomicWaker internals): " +
+            ", ".join(f"{x['config'][10:]}: {x['distinct_states']} {x['verdict']}" for x in ra_runs))
+        states += sum(x["distinct_states"] for x in ra_runs if x["verdict"] == "holds")
+        transitions += sum(x["states_generated"] for x in ra_runs if x["verdict"] == "holds")
         # 2. the real code under loom
         out = os.path.join(work, "wake.ndjson")
         open(out, "w").close()
@@ -116,14 +142,20 @@ def check(prop, tier, seed, replay):
                 evaluations=len(lines), distinct_nontrivial=nontriv,
                 rule="loom executions (interleavings of the real code at atomic-operation grain); distinct observable histories in which at least one poll had to wait",
                 samples=[json.loads(x) for x in uniq[:4]], distinct_histories=len(uniq),
+                weak_memory_model_runs=ra_runs,
                 loom_max_preemptions=3 if tier == "quick" else "unbounded",
                 explanation="WriterWake.tla: TLC explores every interleaving of the writer's and the task's atomic steps (spurious CAS failure included) for 8 scenarios "
-                            "and checks the contract; the pinned algorithm is rejected (self-test). The in-crate loom hook enumerates the interleavings of the REAL "
+                            "and checks the contract; the pinned algorithm is rejected (self-test). WriterWakeRA.tla: the same protocol including the atomic "
+                            "operations inside futures' AtomicWaker on a view-based release/acquire + relaxed memory model (loads may read stale messages, RMWs read "
+                            "the last one, release/acquire transfer views, plain accesses to the waker cell must be race free): contract and race freedom hold with the "
+                            "code's orderings and with all of penguin-mux's orderings weakened to Relaxed; a flag-guarded wake passes under SC and fails under RA (self-test). The in-crate loom hook enumerates the interleavings of the REAL "
                             "poll_obtain_write_permission / acknowledge / disallow_write under loom's C11 model; every execution's history is validated by TLC against the same contract"),
                 wall, len(violations), assumptions=[
-                    "the TLA+ algorithm model is sequentially consistent; weak-memory behaviours are explored only on the implementation side, by loom's C11 approximation",
+                    "WriterWakeRA.tla covers the release/acquire + relaxed fragment (no SeqCst fences, no promises / load buffering); it is a design-level model: "
+                    "the orderings written in the code are not observable in traces, the binding to the code is loom's exploration of the real functions",
                     "loom preemption bound 3 in the quick tier",
-                    "AtomicWaker register/wake are treated as atomic in the model (loom models them on the real code)"])
+                    "AtomicWaker register/wake are atomic in WriterWake.tla and sequences of atomic operations (futures-core 0.3 algorithm) in WriterWakeRA.tla; "
+                    "under loom the crate's shim substitutes loom's own AtomicWaker"])
         for p, rec in violations[:5]:
             log(f"contract violated by execution: {json.dumps(rec)}")
             print(f"VIOLATION property={PROP} replay={p}")
